@@ -182,6 +182,23 @@ def make_classes():
             self.rec.ev("step", {k: o.version for k, o in self.held.items()})
             return 0
 
+    class VModelOwn(VModel):
+        """A model that keeps its inference object under an attribute of its own and overrides the public
+        `inference_model` property (built on first use): everything that goes through the public property works."""
+        _own = None
+
+        @property
+        def inference_model(self):
+            if not self.has_inference_model:
+                raise RuntimeError
+            if self._own is None:
+                self._own = self._create_inference_model()
+            return self._own
+
+    def make_model(rec, name, has_inf, inf_only, version):
+        cls = VModelOwn if (len(name) * 7 + version) % 3 == 0 else VModel
+        return cls(rec, name, has_inf, inf_only, version)
+    VModel.make = staticmethod(make_model)
     return VInf, VModel, VTrainer, VAgent
 
 
@@ -289,7 +306,7 @@ def run_case(case: dict, driver):
         for n, h, i, v in case["models"]:
             raised = None
             try:
-                m = VModel(rec, n, h, i, v)
+                m = VModel.make(rec, n, h, i, v)
             except ValueError:
                 raised = "ValueError"
             mon.ctor(h, i, raised)
@@ -375,6 +392,16 @@ def run_case(case: dict, driver):
                 synced = sorted((x[1], x[2].oid) for x in log if x[0] == "sync")
                 lines.append(f"models run {t} [" + ",".join(f"{k}={v}" for k, v in bumps) + "]")
                 impl.append("synced=[" + ",".join(f"{k}:{o}" for k, o in synced) + "]")
+            elif kind == "reattach":
+                # a second session in one process: the same trainer object is handed the same container again; what it
+                # retrieved before (and still holds) keeps being synchronised - the hook only retrieves its usual names
+                _, t = op
+                trainers[t].attach_training_models(tmd)
+                for x in rec.take():
+                    if x[0] == "trainer_get":
+                        mon.trainer_get(x[1], x[2], x[3])
+                        lines.append(f"models trainer_get {x[1]} {x[2]}")
+                        impl.append(x[3])
             elif kind == "run_fail":
                 _, t, bumps = op
                 tr = trainers[t]
@@ -399,7 +426,7 @@ def run_case(case: dict, driver):
             elif kind == "set_item":
                 # a model registered after launch() has wired the system: the agent holds the live dictionary
                 _, n, h, i, v = op
-                m = VModel(rec, n, h, i, v)
+                m = VModel.make(rec, n, h, i, v)
                 tmd[n] = m
                 rec.take()
                 models[n] = m
@@ -488,6 +515,8 @@ def gen_case(rng, n_models=None, n_ops=None):
             bump_names = [k for k in have[t] if rng.random() < 0.6]
             rng.shuffle(bump_names)
             ops.append(["run", t, [[k, next(vcount)] for k in bump_names]])
+        elif trainers and r < 0.5:
+            ops.append(["reattach", rng.choice(trainers)])
         elif trainers and r < 0.6:
             t = rng.choice(trainers)
             k = rng.choice(pool)
@@ -690,7 +719,7 @@ def run_launch_case(case: dict, driver=None):
         final_versions = None
         for round_ in range(2):
             rec = Rec()
-            models = {n: VModel(rec, n, h, i, v) for n, h, i, v in specs}
+            models = {n: VModel.make(rec, n, h, i, v) for n, h, i, v in specs}
             trainers = {t: VTrainer(rec, t, case["wants"].get(t, [])) for t in case["trainers"]}
             for t in trainers.values():
                 t.auto = True
